@@ -43,25 +43,24 @@ def rule_r1(ck, prog, S):
         for ps in P.summarize(f, params={f.params[0]["name"]: b}):
             r = ps.ret_node.child(0).strip_all_casts() if ps.ret_node is not None and ps.ret_node.ch else None
             writer[b] = r.get("str") if r is not None and r.k == "StringLiteral" else None
-    # reader: letter sets -> class -> radix
-    letters = {}
-    for pred in ("isH", "isQ", "isB"):
-        g = prog.fn(pred)
-        if g is None:
-            ck.anchor_lost("C07-R1", pred)
-            return
-        letters[pred] = CS.predicate_set(g, prog)
+    # reader: letter sets -> class (byte-wise reachability in the lexer) -> radix
+    from .lexmodel import LexModel
+    from . import c13
     lex = prog.fn("scpiLex_NondecimalNumericData")
     dec = prog.fn("ParamSignToUInt32")
     if lex is None or dec is None:
         ck.anchor_lost("C07-R1", "lexer / decoder")
         return
+    lc = c13.nondecimal_letter_classes(prog, S, LexModel(prog, S)) or {}
+    letters = {}
     cls_of = {}
-    for ps in P.summarize(lex):
-        letter = [a.get("callee") for a, pol in ps.facts if not isinstance(pol, tuple) and pol is True and a.k == "CallExpr" and a.get("callee") in letters]
-        ty = [C.const_of(e[1].child(1)) for e in ps.events if e[0] == "store" and (C.store_target(e[1]).get("path") or "").endswith("->type")]
-        if letter and ty:
-            cls_of[letter[-1]] = ty[0]
+    for cls, (bs, rec) in lc.items():
+        key = K.enum_name(prog, "_scpi_token_type_t", cls)
+        letters[key] = bs or set()
+        cls_of[key] = cls
+    if len(letters) < 3:
+        ck.anchor_lost("C07-R1", "letter -> class map of the nondecimal recogniser (%d classes)" % len(letters))
+        return
     radix_of = {}
     for ps in P.summarize(dec):
         cls = None
@@ -124,23 +123,41 @@ def rule_r2(ck, prog):
             continue
         st = K.site(f, "prefix-and-digits-same-base", 0)
         cv = list(f.calls(conv))
-        gp = list(f.calls("getBasePrefix"))
-        ok = len(cv) == 1 and len(gp) == 1
+        ok = len(cv) == 1
         if ok:
             a = C.call_args(cv[0])
-            ok = (a[0].strip_all_casts().get("path") == f.params[1]["name"] and a[3].strip_all_casts().get("path") == f.params[2]["name"]
-                  and a[4].strip_all_casts().get("path") == f.params[3]["name"]
-                  and C.call_args(gp[0])[0].strip_all_casts().get("path") == f.params[2]["name"])
-            # the prefix write is 2 bytes of the prefix, the digits write is (buffer, returned length)
-            wr = K.ordinal_sites(list(f.calls("writeData")))
+            basep = f.params[2]["name"]
+            ok = (a[0].strip_all_casts().get("path") == f.params[1]["name"] and a[3].strip_all_casts().get("path") == basep
+                  and a[4].strip_all_casts().get("path") == f.params[3]["name"])
+            bufp = a[1].strip_all_casts().get("path")
             lenv = None
             par = f.parent_of(cv[0])
             while par is not None and par.k in ("ImplicitCastExpr", "ParenExpr"):
                 par = f.parent_of(par)
             if par is not None and par.get("op") == "=":
                 lenv = par.child(0).strip().get("path")
-            ok = ok and len(wr) == 2 and C.const_of(K.arg(wr[0], 2)) == 2 and K.arg(wr[1], 2).strip_all_casts().get("path") == lenv \
-                and K.arg(wr[1], 1).strip_all_casts().get("path") == a[1].strip_all_casts().get("path")
+            elif par is not None and par.k == "DeclStmt":
+                lenv = par["decls"][0]["name"]
+
+            def emits(host, base_name, buf_name, len_name):
+                gp = list(host.calls("getBasePrefix"))
+                wr = K.ordinal_sites(list(host.calls("writeData")))
+                return (len(gp) == 1 and C.call_args(gp[0])[0].strip_all_casts().get("path") == base_name and len(wr) == 2 and
+                        C.const_of(K.arg(wr[0], 2)) == 2 and K.arg(wr[1], 2).strip_all_casts().get("path") == len_name and
+                        K.arg(wr[1], 1).strip_all_casts().get("path") == buf_name)
+            if ok:
+                ok = emits(f, basep, bufp, lenv)
+                if not ok:
+                    # the emitting tail may live in a static helper that receives (base, buffer, length)
+                    for hc in f.calls():
+                        h = prog.fn(hc.get("callee") or "")
+                        if h is None or not h.static or h is f:
+                            continue
+                        args_ = [x.strip_all_casts().get("path") for x in C.call_args(hc)]
+                        if basep in args_ and bufp in args_ and lenv in args_ and len(h.params) >= len(args_):
+                            pn = lambda v_: h.params[args_.index(v_)]["name"]
+                            if emits(h, pn(basep), pn(bufp), pn(lenv)):
+                                ok = True
         if ok:
             ck.holds("C07-R2", st, K.loc(f), "value, base and sign passed through; prefix from the same base; digits = returned length")
         else:
@@ -239,13 +256,22 @@ def rule_r3(ck, prog, S):
         if not seen_store or not okc:
             probs.append("the copy loop is not restricted to the two string token classes")
     S2 = K.summaries(prog)
-    skips = [n for n, t in C.stores(g) if t.get("path") == "i_from" and n.k == "UnaryOperator" and n.get("op") == "++"]
     guarded = False
-    for n in skips:
-        for a, pol in (K.facts_at(S2, g, n) or []):
-            if not isinstance(pol, tuple) and pol and a.k == "BinaryOperator" and a.get("op") == "==" and \
-                    a.child(1).strip_all_casts().get("path") == "quote" and "ptr[i_from]" in a.child(0).src.replace(" ", ""):
-                guarded = True
+    hosts = [g] + [prog.fn(c.get("callee")) for c in g.calls() if prog.fn(c.get("callee") or "") is not None and prog.fn(c.get("callee")).static]
+    for h in hosts:
+        # a step of the source index guarded by `source[index] == delimiter` (delimiter: the local `quote` or the
+        # helper parameter that receives it)
+        qnames = {"quote"} | {p_["name"] for p_ in h.params if p_["type"].get("ct") == "char"}
+        for n, t in C.stores(h):
+            is_step = (n.k == "UnaryOperator" and n.get("op") == "++") or (n.get("op") == "+=" and C.const_of(n.child(1)) == 1)
+            if not is_step or not t.get("path"):
+                continue
+            iv = t["path"]
+            for a, pol in (K.facts_at(S2, h, n) or []):
+                if not isinstance(pol, tuple) and pol and a.k == "BinaryOperator" and a.get("op") == "==":
+                    sides = [a.child(0).strip_all_casts(), a.child(1).strip_all_casts()]
+                    if any(x.get("path") in qnames for x in sides) and any(("[%s]" % iv) in (x.get("path") or "") for x in sides):
+                        guarded = True
     if not guarded:
         probs.append("no step over the second character of a doubled delimiter (`param.ptr[i_from] == quote` => i_from++)")
     if probs:
